@@ -27,6 +27,9 @@ def run(tier, seed):
     rep.add_case_results(run_cases([("t2.cases", "make_layout", (p.to_json(),)) for p in progs]), "T2")
     rep.add_case_results(run_cases([("t2.cases", "make_rel", (p.to_json(),)) for p in progs]), "T2")
     run_pipeline(rep, progs, ["C01", "C02"])
+    # the bit order inside a unit follows the byte order current at parse time, in the compiled reader too
+    sw = [p for p in sets.singles(kinds=sorted(sets.BIT_KINDS)) if p.kinds[0] not in sets.REJECTED and not p.align]
+    rep.add_case_results(run_cases([("t2.cases", "make_switch", (p.to_json(),)) for p in sw]), "T2")
     rep.extra["rule"] = "bit-field programs of family F (every bit kind alone and paired with every quick kind), x endian x mode x reader; T1: every (unit width, bits consumed, field width, byte order, storage signedness)"
     rep.extra["explanation"] = (
         "T1 (bit-vector mode, exhaustive in the finite parameters, symbolic unit contents): BitBuffer.read returns spec_bits(unit, W, "
